@@ -25,7 +25,7 @@ PROPS = {
     },
     "C15": {
         "rules": [typing_rules.rule_zip, typing_rules.rule_dup, typing_rules.rule_nodup, typing_rules.rule_result, typing_rules.rule_clause_exits, typing_rules.rule_lookup, typing_rules.rule_checkall, typing_rules.rule_instance, typing_rules.rule_tyrule, typing_rules.rule_tywf, typing_rules.rule_keyed,
-                  traversal.rule_trav(["fun::typing::check::Check"]), annot.rule_annot_check, panics.rule_panic(("A",))],
+                  traversal.rule_trav(["fun::typing::check::Check"]), annot.rule_annot_check, panics.rule_panic(("A",)), typing_rules.rule_nameeq],
         "text": "Rejection discipline of the type checker, decided for every program: zips are length-guarded (R-ZIP), declarations are "
                 "inserted only after a duplicate check that returns Err (R-DUP), binder lists are checked for duplicates before use "
                 "(R-NODUP), no typing Result is dropped or defused and no look-up is defaulted (R-RESULT), the clause-matching and "
